@@ -336,6 +336,21 @@ func checkC22(r *core.Run, p *core.Program) {
 			}
 			return true
 		})
+		// a wider form may be written only after every narrower one has been tried: count the calls
+		nCalls := map[string]int{}
+		firstPos := map[string]token.Pos{}
+		inspectCalls(info, f.Decl.Body, func(c *ast.CallExpr, cal *types.Func) {
+			if cal != nil && strings.HasPrefix(cal.Name(), "WriteFloat") {
+				nCalls[cal.Name()]++
+				if !firstPos[cal.Name()].IsValid() {
+					firstPos[cal.Name()] = c.Pos()
+				}
+			}
+		})
+		early := nCalls["WriteFloat64"] != 1 || nCalls["WriteFloat32"] != 1 || nCalls["WriteFloat16"] != 1 ||
+			firstPos["WriteFloat64"] < firstPos["WriteFloat32"] || firstPos["WriteFloat32"] < firstPos["WriteFloat16"]
+		r.Check("C22.float-order", "cbe.Encoder.OnFloat|no wider form before the narrower attempts", f.Decl.Pos(), !early,
+			fmt.Sprintf("a wider float form is written on a path that has not tried the narrower forms (WriteFloat16 x%d, WriteFloat32 x%d, WriteFloat64 x%d; each must occur once, in this order): some values (e.g. float32 subnormals) get a longer encoding than necessary", nCalls["WriteFloat16"], nCalls["WriteFloat32"], nCalls["WriteFloat64"]))
 		ok := pos["WriteFloat16"].IsValid() && pos["WriteFloat32"].IsValid() && pos["WriteFloat64"].IsValid() &&
 			pos["WriteFloat16"] < pos["WriteFloat32"] && pos["WriteFloat32"] < pos["WriteFloat64"]
 		r.Check("C22.float-order", "cbe.Encoder.OnFloat|16-then-32-then-64", f.Decl.Pos(), ok, "the float forms must be tried narrowest first")
